@@ -9,9 +9,9 @@
    * observer: obs = R_AvlMem monitor state fed with the per-cycle bus sample; invariants: no clause broken, backing
      memory allowed whenever the system is quiescent, while a command is held or a read is outstanding, some beat is accepted or returned within WMAX cycles. *)
 EXTENDS D_Avl2Native, R_AvlMem, TLC
-CONSTANTS NA, MAXB, MB, BES, GAPS, LMIN, LMAX, STALL, WMAX, VAR
-VARIABLES r, m, mo, mem, q, stallc, obs, lastbad, wcnt
-vars == <<r, m, mo, mem, q, stallc, obs, lastbad, wcnt>>
+CONSTANTS NA, MAXB, MB, BES, GAPS, COVER, LMIN, LMAX, STALL, WMAX, VAR
+VARIABLES r, m, mo, mem, q, stallc, obs, lastbad, wcnt, seen
+vars == <<r, m, mo, mem, q, stallc, obs, lastbad, wcnt, seen>>
 
 Cfg == [ab |-> 1, pb |-> 1, base |-> 0, bound |-> WMAX, maxburst |-> MAXB]
 IdleM == [rd |-> 0, wr |-> 0, a |-> 0, bc |-> 0, be |-> 0, d |-> 0]
@@ -20,7 +20,7 @@ Garb == 99
 Init == /\ r = AInit /\ m = IdleM
         /\ mo = [cmd_ready |-> 0, wdata_ready |-> 0, rdata_valid |-> 0, rdata |-> Garb]
         /\ mem = [B \in 0..NA - 1 |-> BmInitByte(B)]
-        /\ q = <<>> /\ stallc = 0 /\ obs = AvInit /\ lastbad = {} /\ wcnt = 0
+        /\ q = <<>> /\ stallc = 0 /\ obs = AvInit /\ lastbad = {} /\ wcnt = 0 /\ seen = {}
 
 Spans == {x \in (0..NA - 1) \X (1..MAXB) : x[1] + x[2] <= NA}
 NewVal(o2, a) == IF 1 \in BmGet(o2.mem, a) THEN 2 ELSE 1
@@ -33,6 +33,18 @@ NextMaster(o2) ==
          \cup {[rd |-> 1, wr |-> 0, a |-> x[1], bc |-> x[2], be |-> 1, d |-> 0] : x \in Spans}
          \cup {[rd |-> 0, wr |-> 1, a |-> x[1], bc |-> x[2], be |-> b, d |-> NewVal(o2, x[1])] : x \in Spans, b \in BES}
 
+\* vacuity guard: with COVER = TRUE the ghost variable seen collects the named situations met so far; the cover
+\* configuration (TLC -simulate) must VIOLATE CoverAll, i.e. exhibit one behaviour that meets them all.
+Goals == (IF r.fsm = "BURST_WRITE" /\ Len(r.wf) = MB /\ m.wr = 1 /\ r.burst_count > 0 THEN {"wdata-fifo-full-beat-held"} ELSE {})
+         \cup (IF r.fsm = "BURST_READ" /\ r.seen = 1 /\ r.burst_count = 1 /\ mo.rdata_valid = 1 THEN {"burst-read-last-beat"} ELSE {})
+         \cup (IF r.fsm = "BURST_READ" /\ r.seen = 0 /\ mo.cmd_ready = 0 THEN {"burst-read-cmd-stalled"} ELSE {})
+         \cup (IF r.fsm = "BURST_WRITE" /\ r.burst_count > 0 /\ m.wr = 0 THEN {"gap-in-write-burst"} ELSE {})
+         \cup (IF r.fsm = "BURST_WRITE" /\ r.burst_count = 0 /\ (m.rd = 1 \/ m.wr = 1) THEN {"next-command-held-while-draining"} ELSE {})
+         \cup (IF r.fsm = "START" /\ (m.rd = 1 \/ m.wr = 1) /\ m.bc = 1 /\ mo.cmd_ready = 0 THEN {"single-stalled"} ELSE {})
+         \cup (IF Len(q) >= 2 THEN {"two-native-commands-outstanding"} ELSE {})
+AllGoals == {"wdata-fifo-full-beat-held", "burst-read-last-beat", "burst-read-cmd-stalled", "next-command-held-while-draining",
+             "single-stalled", "two-native-commands-outstanding"} \cup (IF GAPS THEN {"gap-in-write-burst"} ELSE {})
+
 \* dead-field normalisation (state-space reduction only; the lock-step trace spec uses the raw ANext)
 NormA(x) ==
     CASE x.fsm = "START" -> [x EXCEPT !.burst_count = 0, !.address = 0, !.byteenable = 0, !.writedata = 0, !.crc = 0]
@@ -41,7 +53,7 @@ NormA(x) ==
       [] x.fsm = "BURST_WRITE" -> [x EXCEPT !.byteenable = 0, !.writedata = 0, !.crc = 0, !.seen = 0]
       [] x.fsm = "BURST_READ" -> [x EXCEPT !.byteenable = 0, !.writedata = 0,
                                            !.crc = IF x.seen = 1 THEN 0 ELSE @, !.address = IF x.seen = 1 THEN 0 ELSE @]
-NormO(x) == [x EXCEPT !.cmd = IF x.hold THEN @ ELSE AvInit.cmd, !.wa = IF x.wl > 0 THEN @ ELSE 0]
+NormO(x) == [x EXCEPT !.gapw = FALSE, !.cmd = IF x.hold THEN @ ELSE AvInit.cmd, !.wa = IF x.wl > 0 THEN @ ELSE 0]
 
 Tick ==
   LET i == [rd |-> m.rd, wr |-> m.wr, a |-> m.a, bc |-> m.bc, be |-> m.be, d |-> m.d,
@@ -63,6 +75,7 @@ Tick ==
      /\ obs' = NormO(res.s)
      /\ lastbad' = res.bad
      /\ wcnt' = IF busy /\ ~progress THEN wcnt + 1 ELSE 0
+     /\ seen' = IF COVER THEN seen \cup Goals ELSE seen
      /\ mem' = mem1
      /\ q' = q2
      /\ m' \in NextMaster(res.s)
@@ -84,8 +97,5 @@ Quiescent == r.fsm = "START" /\ q = <<>> /\ ~obs.hold /\ obs.rq = <<>> /\ obs.wl
 MemAllowed == Quiescent => \A B \in 0..NA - 1 : mem[B] \in BmGet(obs.mem, B)
 DoneWithinBound == wcnt <= WMAX
 QueueBounded == Len(q) <= MB + 1
-\* vacuity guards (must be reachable; checked as violated invariants by the cover configuration)
-CoverFifoFull == ~(r.fsm = "BURST_WRITE" /\ Len(r.wf) = MB /\ m.wr = 1)
-CoverBurstRead == ~(r.fsm = "BURST_READ" /\ r.seen = 1 /\ r.burst_count = 1 /\ mo.rdata_valid = 1)
-CoverGap == ~(r.fsm = "BURST_WRITE" /\ r.burst_count > 0 /\ m.wr = 0)
+CoverAll == ~(AllGoals \subseteq seen)
 ====
